@@ -2,7 +2,7 @@
    observation that e2e_model predicts passes xkey_ok for every field name, has the client's method and target and
    the client's framing.  Ties the run-time oracle (xcase_prop_ok) to the model by a theorem. *)
 From Coq Require Import Lia.
-From G01 Require Import ReqE2E ViaProofs ReqProofs.
+From G01 Require Import ReqE2E ViaProofs ReqProofs TransportTac TransportProofs TransportProofs2.
 
 Definition hin_of (x : xin) : hmap := raw_del k_host (fields_to_hmap (xi_fields x)).
 
@@ -84,92 +84,6 @@ Proof.
   repeat split; reflexivity.
 Qed.
 
-(* ---------- L3: what the Transport writes, name by name ---------- *)
-Lemma transport_get_plain x r k :
-  mem k excluded_on_write = false -> k <> k_ae -> k <> k_connection ->
-  raw_get k (transport_hdr0 x r) = raw_get k (q_hdr r).
-Proof.
-  intros Hk Hae Hc. unfold transport_hdr0. cbv zeta.
-  assert (Nh : k <> k_host) by (intro; subst; discriminate Hk).
-  assert (Nu : k <> k_ua) by (intro; subst; discriminate Hk).
-  assert (Ncl : k <> k_cl) by (intro; subst; discriminate Hk).
-  assert (Nt : k <> k_te) by (intro; subst; discriminate Hk).
-  repeat match goal with
-  | |- context [if ?c then _ else _] => destruct c
-  | |- context [match raw_get k_ua ?h with _ => _ end] => destruct (raw_get k_ua h) as [[|? ?]|]
-  | |- raw_get k (raw_set ?k' _ _) = _ => rewrite raw_get_set_other by assumption
-  end;
-  rewrite (raw_get_filter_key (fun k => negb (mem k excluded_on_write))); rewrite Hk; reflexivity.
-Qed.
-
-Ltac transport_cases :=
-  unfold transport_hdr0; cbv zeta;
-  repeat match goal with
-  | |- context [if ?c then _ else _] => let E := fresh "C" in destruct c eqn:E
-  | |- context [match raw_get k_ua ?h with _ => _ end] => let E := fresh "U" in destruct (raw_get k_ua h) as [[|? ?]|] eqn:E
-  end.
-
-Lemma filter_excl_get h k : raw_get k (filter (fun kv => negb (mem (fst kv) excluded_on_write)) h) =
-  if mem k excluded_on_write then None else raw_get k h.
-Proof. rewrite (raw_get_filter_key (fun k => negb (mem k excluded_on_write))). destruct (mem k excluded_on_write); reflexivity. Qed.
-
-Ltac through_sets :=
-  repeat first [ rewrite raw_get_set_same | rewrite raw_get_set_other by discriminate ];
-  rewrite ?filter_excl_get; try reflexivity.
-
-Lemma transport_host x r : raw_get k_host (transport_hdr0 x r) = Some [q_host r].
-Proof. transport_cases; through_sets. Qed.
-
-Lemma transport_te x r : raw_get k_te (transport_hdr0 x r) = if xi_framing x =? 2 then Some [b "chunked"] else None.
-Proof. transport_cases; through_sets. Qed.
-
-Lemma transport_cl x r : raw_get k_cl (transport_hdr0 x r) =
-  if xi_framing x =? 2 then None
-  else if (xi_framing x =? 1) && negb (xi_blen x =? 0) then Some [itoa (xi_blen x)]
-  else if mem (xi_method x) [b "POST"; b "PUT"; b "PATCH"] then Some [[48]] else None.
-Proof. transport_cases; through_sets. Qed.
-
-Lemma transport_ua x r : raw_get k_ua (transport_hdr0 x r) =
-  match raw_get k_ua (q_hdr r) with
-  | Some (v :: _) => if is_empty v then None else Some [v]
-  | Some [] => None
-  | None => Some [b "Go-http-client/1.1"]
-  end.
-Proof. transport_cases; through_sets. Qed.
-
-Definition gzip_added (x : xin) (r : mreq) : bool :=
-  is_empty (h_get k_ae (q_hdr r)) && is_empty (h_get k_range (q_hdr r)) && negb (str_eqb (xi_method x) (b "HEAD")).
-
-Lemma transport_ae x r : raw_get k_ae (transport_hdr0 x r) =
-  if gzip_added x r then Some (raw_values k_ae (q_hdr r) ++ [b "gzip"]) else raw_get k_ae (q_hdr r).
-Proof.
-  unfold gzip_added.
-  assert (V : forall h', (forall k, k = k_ae -> raw_get k h' = raw_get k (q_hdr r)) -> raw_values k_ae h' = raw_values k_ae (q_hdr r)).
-  { intros h' H. unfold raw_values. rewrite (H k_ae eq_refl). reflexivity. }
-  transport_cases; through_sets;
-  try (f_equal; f_equal; apply V; intros k ->; through_sets).
-Qed.
-
-Lemma transport_conn x r : raw_get k_connection (transport_hdr0 x r) =
-  if q_close r && negb (has_token (raw_values k_connection (q_hdr r)) (b "close"))
-  then Some (b "close" :: raw_values k_connection (q_hdr r)) else raw_get k_connection (q_hdr r).
-Proof.
-  assert (V : forall h', raw_get k_connection h' = raw_get k_connection (q_hdr r) ->
-              raw_values k_connection h' = raw_values k_connection (q_hdr r)).
-  { intros h' H. unfold raw_values. rewrite H. reflexivity. }
-  unfold transport_hdr0. cbv zeta.
-  match goal with |- context [has_token (raw_values k_connection ?h5) _] =>
-    assert (E5 : raw_get k_connection h5 = raw_get k_connection (q_hdr r)) end.
-  { repeat match goal with
-    | |- context [if ?c then _ else _] => destruct c
-    | |- context [match raw_get k_ua ?h with _ => _ end] => destruct (raw_get k_ua h) as [[|? ?]|]
-    end; through_sets. }
-  rewrite (V _ E5).
-  destruct (q_close r && negb (has_token (raw_values k_connection (q_hdr r)) (b "close"))).
-  - rewrite raw_get_set_same. reflexivity.
-  - exact E5.
-Qed.
-
 (* ---------- the removal, before and after L1 ---------- *)
 Lemma l1_get_other x k : k <> k_trailer -> k <> k_te -> k <> k_cl -> raw_get k (l1_hdr x) = raw_get k (hin_of x).
 Proof.
@@ -210,6 +124,11 @@ Proof.
       match goal with |- context [index_byte 47 ?a] => destruct (index_byte 47 a) end; reflexivity.
   - left. destruct (last_is 63 _ && _); [|destruct (cut_byte 63 _) as [[? ?]|]]; reflexivity.
 Qed.
+
+Lemma hr_fold tag r : handle_request_cfg no_cfg tag r = handle_request tag r.
+Proof. unfold handle_request. reflexivity. Qed.
+Lemma mr_fold tag r : modify_request_cfg no_cfg tag r = modify_request tag r.
+Proof. unfold modify_request. reflexivity. Qed.
 
 (* split wf_x into its conjuncts *)
 Ltac split_andb H :=
@@ -300,10 +219,10 @@ Section E2E.
     destruct (read_request_shape x Tr1 Wprag Wesc) as [r0 [ER [Eh [Em [Eho [Es [Emaj [Emin [Etls [Erem [Ecl Eurl]]]]]]]]]]].
     apply opt_str_eqb_eq in Wesc.
     unfold e2e_model, e2e_model_cfg in H. rewrite ER in H.
-    change (handle_request_cfg no_cfg (xi_tag x) r0) with (handle_request (xi_tag x) r0) in H.
+    rewrite (hr_fold (xi_tag x) r0) in H.
     destruct (handle_request (xi_tag x) r0) as [st|r'] eqn:EH; [discriminate|].
     rewrite (handle_request_explicit _ _ Horder) in EH. unfold handle_explicit, handle_explicit_cfg in EH. cbv zeta in EH.
-    change (modify_request_cfg no_cfg (xi_tag x) (prep r0)) with (modify_request (xi_tag x) (prep r0)) in EH.
+    rewrite (mr_fold (xi_tag x) (prep r0)) in EH.
     set (rf := prep r0) in *.
     destruct (modify_request (xi_tag x) rf) as [st|r1] eqn:EM; [discriminate|]. injection EH as EH.
     unfold transport_out in H. rewrite Wesc in H. injection H as <-. cbn [xo_method xo_target xo_framing xo_hdr].
@@ -511,11 +430,11 @@ Section E2E.
     apply andb_true_iff in W as [W Wmin]. apply andb_true_iff in W as [Wtag Wmaj].
     destruct (read_request_shape x Tr1 Wprag Wesc) as [r0 [ER [Eh _]]].
     unfold e2e_model, e2e_model_cfg in H. rewrite ER in H.
-    change (handle_request_cfg no_cfg (xi_tag x) r0) with (handle_request (xi_tag x) r0) in H.
+    rewrite (hr_fold (xi_tag x) r0) in H.
     destruct (handle_request (xi_tag x) r0) as [s|r'] eqn:EH.
     - injection H as <-.
       rewrite (handle_request_explicit _ _ Horder) in EH. unfold handle_explicit, handle_explicit_cfg in EH. cbv zeta in EH.
-      change (modify_request_cfg no_cfg (xi_tag x) (prep r0)) with (modify_request (xi_tag x) (prep r0)) in EH.
+      rewrite (mr_fold (xi_tag x) (prep r0)) in EH.
       destruct (modify_request (xi_tag x) (prep r0)) as [s'|r1] eqn:EM; [|discriminate].
       injection EH as <-. rewrite (modify_request_is_pipeline Hflat Hxff Hfill Hvia) in EM.
       assert (Hst' : status_of_error_status via_loop_status = 400).
